@@ -4,7 +4,7 @@ EXTENDS Integers
    generates its own batch (seeded generator of shapes in checks/c01.py) and writes it over this
    module in its staging directory; the same records, as JSON, go to the Go driver. *)
 Progs == <<
-  [id |-> 1, nv |-> 1, body |-> <<
+  [id |-> 1, nv |-> 1, funcs |-> <<>>, altbody |-> <<>>, body |-> <<
      [s |-> "for", label |-> "", v |-> 1, init |-> [e |-> "c", n |-> 0],
       cond |-> [e |-> "cmp", op |-> "<", a |-> [e |-> "v", v |-> 1], b |-> [e |-> "c", n |-> 3]],
       post |-> [s |-> "set", lv |-> [l |-> "v", v |-> 1], e |-> [e |-> "bin", op |-> "+", a |-> [e |-> "v", v |-> 1], b |-> [e |-> "c", n |-> 1]]],
